@@ -17,7 +17,9 @@ package index
 import (
 	"bytes"
 	"fmt"
+	"maps"
 	"math"
+	"slices"
 	"strings"
 
 	"github.com/go-enry/go-enry/v2"
@@ -220,8 +222,10 @@ func (p *contentProvider) scoreLineBM25(ms []*candidateMatch, lineNumber int) (f
 
 	score := 0.0
 	tfs := p.calculateTermFrequency(ms, false) // ignore file priority, since we're just scoring within a single file
-	for _, f := range tfs {
-		score += tfScore(k, b, L, f)
+	// Sum in sorted term order. Float addition is not associative, so summing in
+	// (random) map iteration order makes the score differ between identical searches.
+	for _, term := range slices.Sorted(maps.Keys(tfs)) {
+		score += tfScore(k, b, L, tfs[term])
 	}
 
 	// Check if any index comes from a symbol match tree, and if so hydrate in symbol information
@@ -381,7 +385,10 @@ func (d *indexData) scoreFileBM25(fileMatch *zoekt.FileMatch, doc uint32, cands 
 
 	bm25Score := 0.0
 	sumTF := 0 // Just for debugging
-	for _, f := range tf {
+	// Sum in sorted term order. Float addition is not associative, so summing in
+	// (random) map iteration order makes the score differ between identical searches.
+	for _, term := range slices.Sorted(maps.Keys(tf)) {
+		f := tf[term]
 		sumTF += f
 		bm25Score += tfScore(k, b, L, f)
 	}
